@@ -1,5 +1,12 @@
-(* Actual/OrchHistActual.v — the quirk vector claimed for the current tree (hand-maintained; tied to the code by
-   the correspondence checks of C08 / C10 and listed flag-by-flag in known.d/C08.json and known.d/C10.json). *)
+(* Actual/OrchHistActual.v — the quirk vector claimed for the current tree (hand-maintained; tied to the code by the
+   correspondence checks of C08 / C10).  A flag set to true means "do what the source does": for the three table-shaped
+   flags the model then reads the table from the generated layer.
+     q_dry_keeps_storage, q_consts_in_processing_order, q_api_file_no_finalize: the source was REPAIRED (fix commits 8b82489,
+       5ce39e3, f7c62f4; known.d status "fixed: ..."); with the flag on the model follows the repaired source, the main
+       theorems need no hypothesis about these flags any more, and a revert of a fix makes the model reproduce the defect
+       (reported as a violation: a fixed finding observed again);
+     q_lintfile_leaves_evidence (bare Orchestrator.lint_file), q_ignore_parser_reused (get_ignore_parser singleton): still
+       present, listed as known in known.d/C08.json. *)
 From TL Require Import Lib.Base Model.OrchHist.
 
 Definition orch_actual : oquirks := {|
